@@ -5,6 +5,7 @@ import Driver.Deleg
 import Driver.Eth
 import Driver.Stake
 import Driver.Rewards
+import Driver.Olvm
 
 def main (args : List String) : IO UInt32 := do
   match args with
@@ -15,4 +16,5 @@ def main (args : List String) : IO UInt32 := do
   | ["ethtrk"] => Driver.Eth.main; return 0
   | ["stake"] => Driver.Stake.main; return 0
   | ["rewards"] => Driver.Rewards.main; return 0
+  | ["olvm"] => Driver.Olvm.main; return 0
   | _ => IO.eprintln "usage: olpdriver <engine>  (engines: kv, shell)"; return 2
